@@ -170,8 +170,12 @@ def close(A, B, tol, scale):
     return A.shape == B.shape and bool(np.all(np.isfinite(A))) and float(np.abs(A - B).max()) <= tol * scale
 
 
-def check_spec(spec, with_fd=True):
-    """returns (violations, info): violations = list of (cls, what); info has observed errors and the model class"""
+_LAST_LOSS = [None]
+
+
+def check_spec(spec, with_fd=True, loss=None):
+    """returns (violations, info): violations = list of (cls, what); info has observed errors and the model class.
+    loss: an existing loss object (built for the same spec at ANOTHER theta) to evaluate instead of a fresh one"""
     rs = ref_spec(spec)
     R = c20ref.curvature(rs)
     mclass = c20ref.classify(rs)
@@ -182,7 +186,12 @@ def check_spec(spec, with_fd=True):
     shape = "%d states, %d parameters, observed %s, target %s, weights %s" % (
         len(spec["states"]), len(spec["params"]), spec["obs"], spec.get("target"), spec.get("weight_kind"))
     try:
-        L, th = build_loss(spec)
+        if loss is None:
+            L, th = build_loss(spec)
+        else:
+            L = loss
+            th = np.array(spec["theta"], dtype=float)[c20ref.selection(spec)[1]]
+        _LAST_LOSS[0] = L
     except Exception as e:      # noqa: B902
         return [("loss-construction", "SquareLoss construction raised %s: %s (%s)" % (type(e).__name__, e, shape))], info
     sc_j = 1 + float(np.abs(R["jtj"]).max())
@@ -372,6 +381,7 @@ def run_search(ck):
         specs += [dict(CORPUS[0], backend="cython"), dict(CORPUS[3], backend="cython")]
     dist, worst = {}, {}
     known_hits = 0
+    seconds = []
     seq_specs = [dict(CORPUS[1], target=["b"]), dict(CORPUS[1], target=["a"], weights=None, weight_kind="none")] + \
         [sp for sp in specs if sp.get("target") and len(sp["target"]) < len(sp["params"])][:ck.budget(4, 20)]
     for spec in seq_specs:
@@ -393,6 +403,25 @@ def run_search(ck):
             if cls == "hessian-mixed-terms-omitted":
                 known_hits += 1
             ck.violation(cls, what, dict(kind="curvature", spec=spec, cls=cls))
+        # the same loss object at another theta (what an optimiser does): curvature of the cost at THAT theta
+        if not [c for c, _ in V if c != "hessian-mixed-terms-omitted"] and _LAST_LOSS[0] is not None and len(seconds) < ck.budget(10, 60):
+            pidx = c20ref.selection(spec)[1]
+            theta2 = list(spec["theta"])
+            for i in pidx:
+                theta2[i] = round(theta2[i] * 1.3 + 0.1, 6)
+            spec2 = dict(spec, theta=theta2)
+            seconds.append(1)
+            try:
+                V2, _ = check_spec(spec2, with_fd=False, loss=_LAST_LOSS[0])
+            except Exception as e:      # noqa: B902
+                V2 = [("second-evaluation-raises", "%s: %s" % (type(e).__name__, str(e)[:200]))]
+            for cls, what in V2:
+                if cls == "hessian-mixed-terms-omitted":
+                    known_hits += 1
+                    ck.violation(cls, what, dict(kind="curvature", spec=spec2, cls=cls))
+                else:
+                    ck.violation(cls + "/second-evaluation", "evaluated at theta = %s first, then on the same loss object at %s: %s"
+                                 % (spec["theta"], theta2, what), dict(kind="curvature-second", spec=spec, theta2=theta2, cls=cls))
     ck.notes["search_distribution"] = dist
     ck.notes["search_observed_max_relative_error_on_passing_cases"] = worst
     ck.notes["search_known_class_hits"] = known_hits
@@ -409,6 +438,11 @@ def replay(ck, data):
             if want is None or cls == want:
                 return "[%s] %s" % (cls, what)
         return ("[%s] %s" % V[0]) if V else None
+    if inp.get("kind") == "curvature-second":
+        check_spec(inp["spec"], with_fd=False)
+        V, _ = check_spec(dict(inp["spec"], theta=inp["theta2"]), with_fd=False, loss=_LAST_LOSS[0])
+        V = [v for v in V if v[0] != "hessian-mixed-terms-omitted"]
+        return ("[%s/second-evaluation] %s" % V[0]) if V else None
     if inp.get("kind") == "jtj-sequence":
         V = sequence_check(inp["spec"])
         return ("[%s] %s" % V[0]) if V else None
